@@ -214,11 +214,12 @@ def settings(seed, tier):
         add('FilterAnalyzer', label, b)
     filt('highpass-ubNone', lb=0.05)
     filt('band', lb=0.05, ub=0.3)
+    filt('allpass')
     filt('complex-band', cplx=True, lb=0.05, ub=0.3)
 
     def seedcoh(label, two_d, **kw):
         def b(variant=0, input=None):
-            rs = _rs(seed, 'SeedCoh' + label)
+            rs = _rs(seed, 'SeedCoh' + label + ('/v%d' % variant if variant else ''))
             tgt = _series(rs, 3, N, 0.5)
             sd = _series(rs, 2, N, 0.5) if two_d else _series(rs, 1, N, 0.5, one_d=True)
             kw2 = dict(kw)
@@ -232,7 +233,7 @@ def settings(seed, tier):
 
     def seedcorr(label, two_d):
         def b(variant=0, input=None):
-            rs = _rs(seed, 'SeedCorr' + label)
+            rs = _rs(seed, 'SeedCorr' + label + ('/v%d' % variant if variant else ''))
             tgt = _series(rs, 3, 64)
             sd = _series(rs, 2, 64) if two_d else _series(rs, 1, 64, one_d=True)
             return na.SeedCorrelationAnalyzer(sd, tgt), [sd, tgt]
@@ -242,7 +243,7 @@ def settings(seed, tier):
 
     def era(label, as_events, **kw):
         def b(variant=0, input=None):
-            rs = _rs(seed, 'ERA' + label)
+            rs = _rs(seed, 'ERA' + label + ('/v%d' % variant if variant else ''))
             n = 120
             x = ts.TimeSeries(rs.randn(2, n) if not kw.pop('_one_d', False) else rs.randn(n), sampling_rate=1.0)
             idx = np.array([10, 31, 52, 75, 93])
@@ -261,12 +262,21 @@ def settings(seed, tier):
 
     def epochs(label, sub=False):
         def b(variant=0, input=None):
-            rs = _rs(seed, 'Epochs' + label)
+            rs = _rs(seed, 'Epochs' + label + ('/v%d' % variant if variant else ''))
             st = np.sort(rs.randint(0, 1000, 6)).astype(float)
             du = rs.randint(1, 50, 6).astype(float)
             return ts.Epochs(st, duration=du, time_unit='s'), []
         add('Epochs', label, b)
     epochs('six')
+
+    def series(label, **kw):
+        def b(variant=0, input=None):
+            rs = _rs(seed, 'TS' + label + ('/v%d' % variant if variant else ''))
+            x = _series(rs, 2, 24, **kw)
+            return x, []
+        add('TimeSeries', label, b)
+    series('plain')
+    series('rate2.5-1d', rate=2.5, one_d=True)
     return S
 
 
